@@ -114,11 +114,25 @@ func runOne(t *testing.T, sc *Scenario, seed uint64, replay []int, wantTrace boo
 			if os.Getenv("VERIF_NOYIELD") != "" {
 				every, lockEvery = 0, 0
 			}
-			SetAutoYieldRate(seed, every, lockEvery)
-			defer SetAutoYieldRate(0, 0, 0)
+			// in scenarios that allow it, one run in three also lets the kernel stall a goroutine
+			// right before a mutex acquisition for some kernel quanta
+			var softEvery uint64
+			if sc.SoftParks {
+				softEvery = []uint64{0, 0, 0, 0, 6, 3}[ch.Intn(6)]
+			}
+			if os.Getenv("VERIF_NOYIELD") != "" {
+				softEvery = 0
+			}
 			inKernel = true
 			k = NewK(ch)
 			k.W.LogObs = true
+			SetSoftParks(k.W, softEvery)
+			defer SetSoftParks(nil, 0)
+			if softEvery > 0 {
+				k.W.Stat("mode:kernel-stalls")
+			}
+			SetAutoYieldRate(seed, every, lockEvery)
+			defer SetAutoYieldRate(0, 0, 0)
 			defer UninstallHooks()
 			func() {
 				defer func() {
@@ -200,8 +214,8 @@ func teardown(k *K) {
 		}
 		w.pending = nil
 		w.closeAllStreams()
-		parks := w.parks
-		w.parks = nil
+		parks := append(w.parks, w.soft...)
+		w.parks, w.soft = nil, nil
 		w.mu.Unlock()
 		for _, p := range parks {
 			close(p.ch)
